@@ -24,8 +24,9 @@ META = {
     'assumptions': ['arguments are dictionary keys and therefore realised: solver-enumerated finite domains'],
 }
 
-SEEDS_Q = ['CCO', 'C1CC1C', 'C1CCCCC1C', 'C[C@H](N)O', 'F/C=C/Cl', 'CC(=O)O', 'C=CC=C', 'C1CC1C1CC1', 'CC[N+](C)(C)[O-]']
-SEEDS_T = SEEDS_Q + ['C1CC2CC1C2', 'C[C@H]1CC[C@@H](O)O1', 'FC=[C@]=CCl', 'OCC(O)CO', 'C#CC=C', 'CS(=O)(=O)C', 'C1CCC1CC=O']
+SEEDS_Q = ['CCO', 'C1CC1C', 'C[C@H](N)O', 'F/C=C/Cl', 'CC(=O)O', 'CC.OC']
+SEEDS_X = ['C1CCCCC1C', 'C=CC=C', 'C1CC1C1CC1', 'CC[N+](C)(C)[O-]']
+SEEDS_T = SEEDS_Q + SEEDS_X + ['C1CC2CC1C2', 'C[C@H]1CC[C@@H](O)O1', 'FC=[C@]=CCl', 'OCC(O)CO', 'C#CC=C', 'CS(=O)(=O)C', 'C1CCC1CC=O']
 
 
 def views(m):
@@ -197,10 +198,13 @@ def h_transaction(V, smi):
 
     class Boom(Exception):
         pass
+    read_inside = bool(V.bool('read_inside'))
     try:
         with m:
             m.atom(a).charge = c
             m.atom(a).is_radical = True
+            if read_inside:
+                str(m), m.atoms_order, int(m), m.is_radical        # derived values computed inside the failing block
             if extra == 'add_atom':
                 m.add_atom('O')
             elif extra == 'delete_atom':
@@ -221,6 +225,73 @@ def h_transaction(V, smi):
         m.atom(a).charge = 1
     check_coherent(V, m, ['transaction after failed transaction'])
     V.observe('s', str(m))
+
+
+def h_transaction_edits(V, smi):
+    """two edits inside one successful transaction block, then the block commits"""
+    import chython
+    m = chython.smiles(smi)
+    views(m)
+    done = []
+    try:
+        with m:
+            for s_ in range(2):
+                done.append(apply_edit_safe(V, m, f't{s_}', in_transaction=True))
+    except (KeyError, ValueError, TypeError) as e:
+        V.prove(False, 'a transaction of valid edits commits without an error', {'seed': smi, 'edits': done,
+                'error': type(e).__name__})
+        return
+    if m._atoms:
+        check_coherent(V, m, ['transaction'] + done)
+    # and the object stays usable
+    m.add_atom('C')
+    check_coherent(V, m, ['edit after transaction'] + done)
+    V.observe('done', done)
+
+
+def h_failed_then_edit(V, smi):
+    """a failed transaction that added / deleted atoms, then ordinary edits"""
+    import chython
+    m = chython.smiles(smi)
+    before = views(m)
+
+    class Boom(Exception):
+        pass
+    what = V.choice('what', ['add_atom_numbered', 'add_atom', 'delete_atom', 'add_bond'])
+    try:
+        with m:
+            if what == 'add_atom_numbered':
+                m.add_atom('N', 50)
+            elif what == 'add_atom':
+                m.add_atom('N')
+            elif what == 'delete_atom':
+                m.delete_atom(sorted(m._atoms)[-1])
+            else:
+                k = m.add_atom('O')
+                m.add_bond(sorted(m._atoms)[0], k, 1)
+            raise Boom()
+    except Boom:
+        pass
+    V.prove(views(m) == before, 'a raising transaction restores the prior molecule', {'what': what})
+    apply_edit_safe(V, m, 'after')
+    if m._atoms:
+        check_coherent(V, m, ['edit after failed transaction', what])
+    V.observe('what', what)
+
+
+def h_coordinates_independent(V, smi):
+    """coordinates of a copy / substructure / union are not shared with the source"""
+    import chython
+    m = chython.smiles(smi)
+    how = V.choice('how', ['copy', 'substructure', 'union'])
+    d = {'copy': lambda: m.copy(), 'substructure': lambda: m.substructure(list(m._atoms)),
+         'union': lambda: m | chython.smiles('CN')}[how]()
+    n = sorted(m._atoms)[0]
+    m.atom(n).x = 7.5
+    m.atom(n).y = -3.25
+    V.prove((d.atom(n).x, d.atom(n).y) == (0.0, 0.0), 'moving an atom of the source does not move the atom of the derived '
+            'object', {'how': how, 'got': [d.atom(n).x, d.atom(n).y]})
+    V.observe('how', how)
 
 
 def h_independent(V, smi):
@@ -260,11 +331,27 @@ def h_independent(V, smi):
     V.observe('how', how)
 
 
-def apply_edit_safe(V, m, tag):
-    """one edit out of a small alphabet with fixed arguments (for the independence clauses)"""
+def apply_edit_safe(V, m, tag, in_transaction=False):
+    """one edit out of a small alphabet with fixed arguments (for the independence / transaction clauses)"""
     nums = sorted(m._atoms)
-    kind = V.choice(tag + '_kind', ['add_atom', 'delete_atom', 'charge', 'add_bond', 'delete_bond'])
+    kinds = ['add_atom', 'delete_atom', 'charge', 'add_bond', 'delete_bond', 'add_bond_existing', 'delete_added']
+    kind = V.choice(tag + '_kind', kinds)
     try:
+        if kind == 'add_bond_existing':
+            # bond between two existing, not yet bonded atoms (first pair found)
+            for a in nums:
+                for b in nums:
+                    if a < b and b not in m._bonds[a]:
+                        m.add_bond(a, b, 1)
+                        return (kind, a, b)
+            return None
+        if kind == 'delete_added':
+            k = m.add_atom('C')
+            m.delete_atom(k)
+            return kind
+        if kind == 'charge' and in_transaction:
+            m.atom(nums[0]).charge = 1
+            return kind
         if kind == 'add_atom':
             m.add_atom('O')
         elif kind == 'delete_atom':
@@ -285,7 +372,9 @@ def apply_edit_safe(V, m, tag):
     return kind
 
 
-HARNESSES = {'edit': h_edit, 'transaction': h_transaction, 'independent': h_independent}
+HARNESSES = {'edit': h_edit, 'transaction': h_transaction, 'independent': h_independent,
+             'transaction_edits': h_transaction_edits, 'failed_then_edit': h_failed_then_edit,
+             'coordinates_independent': h_coordinates_independent}
 
 
 def finding_key(job, failure):
@@ -294,6 +383,9 @@ def finding_key(job, failure):
     kinds = [EDITS[mdl[x]] for x in ('e0_kind', 'e1_kind') if x in mdl]
     if kinds:
         k += ':' + '+'.join(kinds)
+    for x in ('t0_kind', 't1_kind', 'after_kind', 'what', 'how'):
+        if x in mdl:
+            k += f':{x}={mdl[x]}'
     return k
 
 
@@ -304,6 +396,9 @@ def jobs(tier):
         J.append({'harness': 'edit', 'params': {'smi': s, 'steps': 1}, 'budget_s': 900, 'validate_every': 25,
                   'max_failures': 40, 'weight': 100})
         J.append({'harness': 'transaction', 'params': {'smi': s}, 'budget_s': 300, 'validate_every': 10})
+        J.append({'harness': 'transaction_edits', 'params': {'smi': s}, 'budget_s': 600, 'validate_every': 10, 'max_failures': 30})
+        J.append({'harness': 'failed_then_edit', 'params': {'smi': s}, 'budget_s': 300, 'validate_every': 10, 'max_failures': 30})
+        J.append({'harness': 'coordinates_independent', 'params': {'smi': s}, 'budget_s': 60})
         J.append({'harness': 'independent', 'params': {'smi': s}, 'budget_s': 1800, 'validate_every': 50, 'weight': 300})
     for s in (SEEDS_T[:8] if T else ['C1CC1C', 'F/C=C/Cl']):
         J.append({'harness': 'edit', 'params': {'smi': s, 'steps': 2}, 'budget_s': 3000, 'validate_every': 200,
